@@ -8,10 +8,11 @@ for id in $ids; do
   if ! git -C /repo diff --quiet; then echo "$id: /repo working tree is not clean, stopping"; exit 2; fi
   if ! git -C /repo apply $PWD/$p; then echo "$id: patch does not apply"; continue; fi
   t0=$(date +%s)
-  timeout 5400 ./check $id --tier quick > /tmp/seed_$id.log 2>&1; rc=$?
+  prop=${id:0:3}
+  timeout 5400 ./check $prop --tier quick > /tmp/seed_$id.log 2>&1; rc=$?
   t1=$(date +%s)
   git -C /repo checkout -- .
-  grep -E "^VIOLATION|^  obligation=|^KNOWN-FINDING|^$id quick" /tmp/seed_$id.log | cut -c1-400 > seeded/$id/check.log
+  grep -E "^VIOLATION|^  obligation=|^KNOWN-FINDING|^$prop quick" /tmp/seed_$id.log | cut -c1-400 > seeded/$id/check.log
   echo "exit=$rc wall=$((t1-t0))s patch=$(basename $p) repo=$(git -C /repo rev-parse --short HEAD)" >> seeded/$id/check.log
   python3 - "$id" "$rc" <<'PY'
 import json, re, sys
